@@ -40,14 +40,14 @@ func stackScenarios(r *vk.Run) []stackScenario {
 		}
 	}
 	if r.Quick() {
-		return []stackScenario{out[0], out[3], out[4], out[7]}
+		return out[:8:8]
 	}
 	return out
 }
 
 func phaseStack(r *vk.Run) {
 	scen := stackScenarios(r)
-	bound := r.Pick(1, 2)
+	bound := r.Pick(2, 3)
 	zero := make([]int, len(scen))
 	var mu sync.Mutex
 	msgs, short := 0, 0
